@@ -256,6 +256,9 @@ class Tables:
 
     def __init__(s, native_full, native_nd=None):
         s.t = {}
+        s._tmpl = {}
+        s._inst = {}
+        s._X = z3.BitVec('X!tmpl', 32)
         for name in ('whitespace', 'alphanumeric', 'width'):
             st, r = native_full.call('table ' + name)
             if st != 'OK':
@@ -276,6 +279,49 @@ class Tables:
         raise KeyError(cp)
 
     def pred(s, name, val, cp, lo=0, hi=0x10FFFF):
+        """membership predicate of a symbolic code point; built once per (table, value, class) over a placeholder
+        and instantiated by substitution (z3py term construction is the expensive part)"""
+        key = (name, val, lo, hi)
+        tm = s._tmpl.get(key)
+        if tm is None:
+            tm = s._build(name, val, s._X, lo, hi)
+            s._tmpl[key] = tm
+        if isinstance(tm, bool):
+            return tm
+        k2 = (key, cp.get_id())
+        hit = s._inst.get(k2)
+        if hit is not None:
+            return hit[1]
+        r = z3.substitute(tm, (s._X, cp))
+        s._inst[k2] = (cp, r)
+        return r
+
+    def width_term(s, cp, lo, hi, floor0=False):
+        """column width as a nested ite over the extracted table (values < 0 mean `None`; floor0 maps them to 0)"""
+        key = ('widthterm', floor0, lo, hi)
+        tm = s._tmpl.get(key)
+        if tm is None:
+            vals = [v for v in s.values('width', lo, hi) if floor0 or v >= 0]
+            vals.sort(key=lambda v: len(s.ranges('width', v, lo, hi)))
+            if len(vals) == 1:
+                tm = max(vals[0], 0)
+            else:
+                e = z3.IntVal(max(vals[-1], 0))
+                for v in reversed(vals[:-1]):
+                    e = z3.If(s._build('width', v, s._X, lo, hi), z3.IntVal(max(v, 0)), e)
+                tm = e
+            s._tmpl[key] = tm
+        if isinstance(tm, int):
+            return tm
+        k2 = (key, cp.get_id())
+        hit = s._inst.get(k2)
+        if hit is not None:
+            return hit[1]
+        r = z3.substitute(tm, (s._X, cp))
+        s._inst[k2] = (cp, r)
+        return r
+
+    def _build(s, name, val, cp, lo, hi):
         rs = s.ranges(name, val, lo, hi)
         terms = []
         for a, b in rs:
@@ -466,12 +512,7 @@ class Models:
                 if I.branch(T.pred('width', -1, cp, lo, hi)):
                     return NONE()
                 vals = [v for v in vals if v != -1]
-            # value as a nested ite; the value with most ranges is the default
-            vals.sort(key=lambda v: len(T.ranges('width', v, lo, hi)))
-            e = z3.IntVal(vals[-1])
-            for v in reversed(vals[:-1]):
-                e = z3.If(T.pred('width', v, cp, lo, hi), z3.IntVal(v), e)
-            return Some(e if len(vals) > 1 else vals[-1])
+            return Some(T.width_term(cp, lo, hi))
         reg('<char as UnicodeWidthChar>::width', uwidth)
 
         def trim(I, s, start=True, end=True):
